@@ -76,7 +76,7 @@ func Worker(shard, n int, tier string) *engine.Result {
 			res.CapHit = true
 			break
 		}
-		if only := os.Getenv("VERIF_ONLY"); only != "" && only != p.desc {
+		if engine.SkipScenario(p.desc) {
 			continue
 		}
 		h, ref, wref := f.RunReference(p.Plan, tmpl)
